@@ -72,7 +72,9 @@ class Bounds:
         self._paths = {}
         self.unbounded = {}
         for q, f in self.funcs.items():
-            self._paths[q] = ret_paths(cm.paths(f, True))
+            # both byte orders: a format may be signed in one of them only
+            self._paths[q] = ret_paths(cm.paths(f, True)) + \
+                ret_paths(cm.paths(f, False))
         for _ in range(8):
             new = {}
             for q in self.funcs:
